@@ -1,6 +1,6 @@
 (* Refine/CollRefine.v — the editing methods of PauliStringCollection that tools/py2coq.py generates from
-   src/paulie/common/pauli_string_collection.py (__len__, find, __delitem__, expand, _processing, append, insert, remove,
-   replace, contract, get_class) are the transitions of the hand-written state machine Model/Collection.v (step true),
+   src/paulie/common/pauli_string_collection.py (__init__, __len__, find, __delitem__, expand, _processing, append, insert,
+   remove, replace, contract, sort, get_class) are the transitions of the hand-written state machine Model/Collection.v (step true),
    which the C10 theorems quantify over: every finite history of these methods is a run of the model. *)
 From PauLie Require Import Pauli Collection ParserT CollectionT.
 From PauLieRefine Require Import PySem.
@@ -157,13 +157,38 @@ Proof.
   destruct (Collection.find p (gens s)); [destruct (processing true (gens s) (smul p q))|]; reflexivity.
 Qed.
 
+Theorem gen_c_sort s : py_C_sort s = (FRet (fst (step true s Sort)), fst (step true s Sort)).
+Proof. reflexivity. Qed.
+
+(* the constructor: whatever the object held, it now holds the given strings, the shorter ones padded to the longest *)
+Lemma pad_same n p : length p = n -> pad n p = p.
+Proof. intros <-. unfold pad. rewrite Nat.sub_diag. cbn. apply app_nil_r. Qed.
+Theorem gen_c_init s0 l : py_C_init s0 l = (FNone, mk l).
+Proof.
+  unfold py_C_init, mk. cbv zeta. unfold set_gens, set_cache. cbn [gens cache]. destruct l as [|a l]; [reflexivity|]. set (L := a :: l).
+  cbn [negb seqo]. match goal with |- context [fold_left ?f _ _] => set (F := f) end.
+  assert (Hloop : forall t acc g0, (forall g, In g t -> (length g <= maxlen L)%nat) -> exists g1,
+     fold_left F t (Next ({| gens := acc; cache := None |}, Z.of_nat (maxlen L), g0)) =
+     Next ({| gens := acc ++ map (pad (maxlen L)) t; cache := None |}, Z.of_nat (maxlen L), g1)).
+  { induction t as [|x t IH]; intros acc g0 Hle; [exists g0; cbn; rewrite app_nil_r; reflexivity|].
+    cbn [fold_left map].
+    assert (St : F (Next ({| gens := acc; cache := None |}, Z.of_nat (maxlen L), g0)) x =
+                 Next ({| gens := acc ++ [pad (maxlen L) x]; cache := None |}, Z.of_nat (maxlen L), pad (maxlen L) x)).
+    { subst F. cbv beta. cbn [seqo uncont]. assert (Hx := Hle x (or_introl eq_refl)).
+      destruct (Z.of_nat (length x) <? Z.of_nat (maxlen L)) eqn:E.
+      - assert (G : (Z.of_nat (length x) <=? Z.of_nat (maxlen L)) = true) by lia. rewrite G. cbn [seqo uncont gens cache]. rewrite Nat2Z.id. reflexivity.
+      - cbn [seqo uncont gens cache]. rewrite (pad_same (maxlen L) x) by lia. reflexivity. }
+    rewrite St. destruct (IH (acc ++ [pad (maxlen L) x]) (pad (maxlen L) x) (fun g Hg => Hle g (or_intror Hg))) as [g1 E]. exists g1. rewrite E, <- app_assoc. reflexivity. }
+  destruct (Hloop L [] [] (fun g Hg => maxlen_ge L g Hg)) as [g1 E]. rewrite E. reflexivity.
+Qed.
+
 (* ---------- histories ---------- *)
-(* one public edit or query of the source, as a transition on the state (sort() is not translated: the model's transition stands in) *)
+(* one public edit or query of the source, as a transition on the state *)
 Definition py_step (s : coll) (o : op) : coll :=
   match o with
   | Append p => snd (py_C_append s p) | Insert i p => snd (py_C_insert s i p) | Remove p => snd (py_C_remove s p)
   | DelItem i => snd (py_C_delitem s i) | Replace p q => snd (py_C_replace s p q) | Contract p q => snd (py_C_contract s p q)
-  | Expand n => snd (py_C_expand s (Z.of_nat n)) | Query => snd (py_C_get_class s) | Sort => fst (step true s Sort)
+  | Expand n => snd (py_C_expand s (Z.of_nat n)) | Query => snd (py_C_get_class s) | Sort => snd (py_C_sort s)
   end.
 Theorem gen_step s o : py_step s o = fst (step true s o).
 Proof.
@@ -189,6 +214,9 @@ Proof.
 Qed.
 (* C10 read on the source: after any history, all strings have one length, and what get_class answers was computed from
    a permutation of the strings held now *)
+(* from the constructor on: PauliStringCollection(l) followed by any history is the model's run from mk l *)
+Theorem gen_history_from_constructor ops s0 l : fold_left py_step ops (snd (py_C_init s0 l)) = fst (run true (mk l) ops).
+Proof. rewrite gen_c_init. apply gen_history. Qed.
 Theorem gen_uniform_after_history ops l : uniform (gens (fold_left py_step ops (mk l))).
 Proof.
   assert (H : forall ops s, uniform (gens s) -> uniform (gens (fold_left py_step ops s))).
@@ -225,6 +253,9 @@ Print Assumptions gen_c_remove.
 Print Assumptions gen_c_get_class.
 Print Assumptions gen_c_replace.
 Print Assumptions gen_c_contract.
+Print Assumptions gen_c_sort.
+Print Assumptions gen_c_init.
+Print Assumptions gen_history_from_constructor.
 Print Assumptions gen_step.
 Print Assumptions gen_history.
 Print Assumptions gen_uniform_after_history.
